@@ -173,6 +173,17 @@ pub fn configs(prop: &str, thorough: bool) -> Vec<SimConfig> {
             v.push(c);
             // several idle entries of different ages with some of them closed: request completion is
             // abbreviated to one macro step so that these histories are shallow
+            // a connection taken from the idle list by a request that is cancelled before its first
+            // poll, closed by the peer in between, with another request waiting: cancel and close
+            // together at N=3, request completion as one macro step, no clock
+            let mut c = full("n3-macro-cancel-close", 3, true);
+            c.idle_timeout = None;
+            c.max_ticks = 0;
+            c.allow_h2 = false;
+            c.ev_dial_fail = false;
+            c.macro_finish = true;
+            c.max_depth = Some(if thorough { 16 } else { 13 });
+            v.push(c);
             let mut c = full("n3-macro-idle-ages", 3, true);
             c.idle_timeout = Some(1);
             c.max_ticks = 2;
@@ -287,7 +298,7 @@ pub fn opts_for(prop: &'static str, thorough: bool) -> Opts {
     }
 }
 
-fn replay_json(cfg: &SimConfig, hist: &[Ev]) -> serde_json::Value {
+pub(crate) fn replay_json(cfg: &SimConfig, hist: &[Ev]) -> serde_json::Value {
     json!({
         "engine": "poolmc",
         "config": {
